@@ -45,7 +45,7 @@ def install_abstract():
     for n in ("h1", "h2"):
         f.constructors[n] = (lambda n=n: fl.HedgeLambda(n, HEDGES[n]))
 def engine(enabled):
-    return fl.Engine("e", "", [fl.InputVariable("X", 0, 1, terms=[fl.Triangle("ON", 0.0, 0.5, 1.0)])],
+    return fl.Engine("e", "", [fl.InputVariable("X", minimum=0, maximum=1, terms=[fl.Triangle("ON", 0.0, 0.5, 1.0)])],
         [fl.OutputVariable(n, minimum=0, maximum=1, enabled=enabled[n], aggregation=fl.Maximum(), defuzzifier=fl.Centroid(),
                            terms=[fl.Triangle("LOW", 0.0, 0.25, 0.5), fl.Triangle("HIGH", 0.5, 0.75, 1.0)]) for n in ("A", "B", "C")], [])
 '''
@@ -62,7 +62,7 @@ def install_abstract(fl):
 
 
 def make_engine(fl, enabled):
-    return fl.Engine("e", "", [fl.InputVariable("X", 0, 1, terms=[fl.Triangle("ON", 0.0, 0.5, 1.0)])],
+    return fl.Engine("e", "", [fl.InputVariable("X", minimum=0, maximum=1, terms=[fl.Triangle("ON", 0.0, 0.5, 1.0)])],
                      [fl.OutputVariable(n, minimum=0, maximum=1, enabled=enabled[n], aggregation=fl.Maximum(), defuzzifier=fl.Centroid(),
                                         terms=[fl.Triangle("LOW", 0.0, 0.25, 0.5), fl.Triangle("HIGH", 0.5, 0.75, 1.0)]) for n in OUTS], [])
 
